@@ -287,8 +287,37 @@ func (p *symParser) str() (*StrV, bool) {
 					out = append(out, t.Const(8, '\b'))
 				case 'f':
 					out = append(out, t.Const(8, '\f'))
+				case 'u':
+					// concrete \u00XX escapes of ASCII characters; anything else is not modelled here
+					if p.i+5 >= len(p.b) {
+						return nil, false
+					}
+					v := 0
+					for k := 2; k < 6; k++ {
+						h := p.b[p.i+k]
+						if !h.IsConst() {
+							return nil, false
+						}
+						d := byte(h.Val)
+						switch {
+						case d >= '0' && d <= '9':
+							v = v<<4 | int(d-'0')
+						case d >= 'a' && d <= 'f':
+							v = v<<4 | int(d-'a'+10)
+						case d >= 'A' && d <= 'F':
+							v = v<<4 | int(d-'A'+10)
+						default:
+							return nil, false
+						}
+					}
+					if v >= 0x80 {
+						return nil, false
+					}
+					out = append(out, t.Const(8, uint64(v)))
+					p.i += 6
+					continue
 				default:
-					return nil, false // \u escapes: not modelled here
+					return nil, false
 				}
 				p.i += 2
 				continue
